@@ -22,6 +22,26 @@ TEXT = {
         level="Proof over the constructors as regenerated from hsms.go by the translator (gen/Ctrl.v): C14_layout_req, C14_layout_reject, C14_short_system_bytes, C14_echo (responses echo session id and system bytes, wrong kind refused), C14_bytes, C14_type_function, C14_type_total (all 65,536 (PType, SType) pairs: forallb ... = true by vm_compute, lifted with forallb_forall), C14_decode. Correspondence suite C14 is exhaustive over session ids, status/reason codes and (PType, SType) pairs.",
         note=BASE_NOTE + " The translation of the eight constructors, Type() and ToBytes() is by gengo's recognised statement forms; an unrecognised form makes CtrlTie.v fail.",
         technique="Coq proof over translator-generated definitions (reflexivity, finite sweep lifted by forallb_forall) + exhaustive correspondence"),
+    "C09": dict(
+        level="Proof (partial for lists): C09_subst (FillVariables of a value item = the factory on the argument list with the values in place, refusal included), C09_unknown, C09_values_survive, C09_names, C09_bytes. The composition law and the order of remaining variables for list templates are decided by the Go-side monitor of suite C09 (single fill vs every split into successive fills) and by correspondence with the model (C09_compose_partial).",
+        note=BASE_NOTE,
+        technique="Coq proof (substitution lemma through the factory) + differential correspondence + metamorphic monitor (split fills)"),
+    "C10": dict(
+        level="Proof (partial): C10_unique (names stay unique for every template and assignment), closed instances C10_zero / C10_two; the state-passing model mirrors fillEllipsis one to one and is tied to the code by all small templates (exhaustive enumeration) and random larger ones; C10_refines (equality with a declarative expander) is not proved yet.",
+        note=BASE_NOTE,
+        technique="Coq model mirroring the expander + exhaustive small-template correspondence + structural monitors"),
+    "C12": dict(
+        level="Proof: C12_leaf_exact (every stored element is the mathematical value of the argument, within the item's range; floats finite and rounded by the modelled conversion), C12_int_no_wrap / C12_uint_no_wrap (no wrap-around for any Go integer type), C12_leaf_refused (every refusal has a documented reason), C12_float32_finite, C12_ascii, C12_message, C12_fill. Correspondence suite C12: the full boundary grid, plus an independent big-integer oracle on the Go side.",
+        note=BASE_NOTE + " float64->float32 and int->float64 conversions are modelled in Gallina (round to nearest even) and validated against Go on the boundary grid and random values.",
+        technique="Coq proof over the factory model + exhaustive boundary-grid correspondence + independent oracle"),
+    "C16": dict(
+        level="Proof: C16_nodup (for every history of API calls no name occurs twice in any pooled item or message: invariant by induction over the history), C16_encodable (ToBytes non-empty iff no variables), C16_size. The printed-order clause is decided by an independent reader of the printed form on the Go side (C16_order_partial).",
+        note=BASE_NOTE,
+        technique="Coq invariant over histories (fold_left) + correspondence + independent printed-form reader"),
+    "C18": dict(
+        level="Proof: C18_setwaitbit, C18_setsession, C18_fill (each result is refused or equal to the input in every field but the named ones), C18_sequences (validity and identity fields are invariants of every producer sequence). Correspondence suite C18 + Go-side frame-condition monitor.",
+        note=BASE_NOTE,
+        technique="Coq proof (record frame conditions, fold_left invariant) + correspondence + frame monitor"),
     "C13": dict(
         level="Proof: C13_header_exact / C13_length_bytes (1 length byte up to 255, 2 up to 65,535, 3 beyond, for all sizes 0..16,777,215 and every type name, by arithmetic), C13_header_refused, C13_constructible_iff, C13_encoding, C13_readback, C13_decoder_reads. Correspondence: getHeaderBytes through the verif hook at every boundary and on random sizes, real items around 255|256 and 65535|65536, Go-side probes at the 16,777,215 limit.",
         note=BASE_NOTE,
